@@ -50,7 +50,7 @@ class C01(core.Check):
         return pc.prepare(case)
 
     def requests(self, case: dict, impl: Any) -> List[str]:
-        if "internals" not in impl or impl.get("chop_error") or impl.get("unrealisable"):
+        if "internals" not in impl or impl.get("chop_error") or impl.get("unrealisable") or impl.get("extreme"):
             return []
         return [pc.model_request(impl["internals"], impl["chops"])]
 
@@ -79,7 +79,7 @@ class C01(core.Check):
                 out.append({"site": "Mesh.write:consistent-chops-rejected", "what": impl.get("message")})
         elif oc == "UndefinedGradingsError":
             pass  # C02's clause
-        elif oc == "ValueError" and impl.get("unrealisable"):
+        elif oc == "ValueError" and (impl.get("unrealisable") or impl.get("extreme")):
             pass  # a preserved size that does not fit on an edge is rejected (C03's clause)
         else:
             out.append({"site": f"Mesh.write:unexpected-{oc}", "what": impl.get("message")})
